@@ -26,6 +26,9 @@ SQRT2 = math.sqrt(2.0)
 #: correct branches of the code stay below 1.1e-15 on 500k samples.
 QTOL = 2e-14
 HALTON_TOL = 1e-14
+#: a normal value 'is what the quantile primitive returns for u' (relative; the primitive is evaluated on arrays of
+#: different lengths, numpy may take different SIMD paths)
+Z_TOL = 1e-11
 LOW_EDGE = 0.075      # below: AS241 tail branch is the right one (|u - 0.5| > 0.425)
 MID_LO, MID_HI = 0.45, 0.925
 
@@ -198,53 +201,377 @@ def term_value(t):
     raise MachineryError(f'unexpected term {t}')
 
 
-def replay_halton(rec: dict, env: dict | None, via: str = 'catalogue') -> dict:
-    """Compare one emitted behaviour with the real generator.  -> dict(n=points, problems=[(key, detail, facts)])"""
+def _zclose(z: float, zp: float) -> bool:
+    return math.isfinite(z) and math.isfinite(zp) and abs(z - zp) <= Z_TOL * max(1.0, abs(zp))
+
+
+def judge_array(name: str, n: int, R: int, a, terms_flat: list, env: dict | None, via: str, spied=None,
+                where: str = '') -> dict:
+    """Judge an array returned for generator(n, R) of a deterministic (Halton) entry against the exact
+    values the spec printed (`terms_flat`, row-major).  -> dict(n=points, worst=, problems=[(key, detail, facts)])
+
+    rational entries: |value - q| <= 1e-14, exact Fraction difference.
+    normal entries (probit(q)): (a) the uniform numbers handed to the quantile primitive (when observable) are
+    the rationals q; (b) Phi(z) = q on the nearer tail.  A deviation inside the region and envelope of the known
+    finding about the PRIMITIVE is reported as that finding only if z is what the primitive returns for q --
+    the finding is about get_normal_wichura_draws, not about which numbers an entry feeds it."""
     import numpy as np
 
-    name, n, R = rec['name'], rec['n'], rec['R']
+    base = dict(name=name, n=n, R=R, via=via)
+    if where:
+        base['where'] = where
+    a = np.asarray(a, dtype=float) if not isinstance(a, np.ndarray) or a.dtype != float else a
+    if a.shape != (n, R):
+        return dict(n=0, worst=0.0, problems=[('halton:shape', dict(base, shape=list(a.shape)), dict(clause='shape', name=name))])
+    flat = a.reshape(-1)
+    vals = [term_value(t) for t in terms_flat]
+    if len(vals) != n * R:
+        raise MachineryError(f'{len(vals)} expected values for {name}({n},{R})')
     problems = []
-    if via == 'database':
-        import pandas as pd
-        import biogeme.database as db
+    worst = 0.0
+    normal = [k for k, (kind, _) in enumerate(vals) if kind != 'q']
+    zprim = None
+    if normal:
+        uexp = [float(q) for _, q in vals]
+        try:
+            zprim = wichura(uexp)
+        except Exception:  # noqa  (a primitive that cannot be evaluated: nothing is excused)
+            zprim = None
+        if spied is not None and len(normal) == len(vals):
+            sp = np.asarray(spied, dtype=float).reshape(-1)
+            if sp.size != len(vals):
+                problems.append(('halton:value', dict(base, what='underlying uniform numbers', expected_count=len(vals), got_count=int(sp.size)),
+                                 dict(clause='halton', name=name)))
+            else:
+                for k, (_, q) in enumerate(vals):
+                    got = float(sp[k])
+                    err = abs(Fraction(got) - q) if math.isfinite(got) else float('inf')
+                    if not err <= HALTON_TOL:
+                        problems.append(('halton:value', dict(base, what='underlying uniform number handed to the quantile transform',
+                                                              row=k // R, col=k % R, expected=str(q), expected_float=float(q), got=got),
+                                         dict(clause='halton', name=name)))
+    for k, (kind, q) in enumerate(vals):
+        got = float(flat[k])
+        i, j = divmod(k, R)
+        if kind == 'q':
+            err = abs(Fraction(got) - q) if math.isfinite(got) else float('inf')
+            worst = max(worst, float(err))
+            if not err <= HALTON_TOL:
+                problems.append(('halton:value', dict(base, row=i, col=j, expected=str(q), expected_float=float(q), got=got),
+                                 dict(clause='halton', name=name)))
+        else:
+            u = float(q)
+            zp = None if zprim is None else float(zprim[k])
+            if kind == 'negprobit':
+                got = -got
+            if not quantile_ok(u, got):
+                facts, detail = quantile_facts(u, got, env, f'{name}({n},{R})[{i}][{j}] via {via} {where}'.strip())
+                if facts['within_envelope'] and zp is not None and _zclose(got, zp):
+                    problems.append(('quantile', detail, facts))
+                else:
+                    problems.append(('halton:value', dict(base, row=i, col=j, expected=f'probit({q})', expected_uniform=u, got=got,
+                                                          Phi_of_got=0.5 * math.erfc(-got / SQRT2) if math.isfinite(got) else None,
+                                                          quantile_primitive_of_expected_uniform=zp),
+                                     dict(clause='halton', name=name)))
+    return dict(n=n * R, worst=worst, problems=problems)
 
-        d = db.Database('c11', pd.DataFrame({'x': [float(i) for i in range(n)]}))
-        tab = np.asarray(d.generate_draws({'v': name}, ['v'], R), dtype=float)
+
+def _database_table(names: list, n: int, R: int):
+    """Database.generate_draws for the listed draw types -> (table, [uniform_numbers seen by the quantile primitive])"""
+    import numpy as np
+    import pandas as pd
+    import biogeme.database as db
+
+    d = db.Database('c11', pd.DataFrame({'x': [float(i) for i in range(n)]}))
+    del _SPY[:]
+    tab = d.generate_draws({f'v{k}': nm for k, nm in enumerate(names)}, [f'v{k}' for k in range(len(names))], R)
+    spied = [x for x in _SPY if x is not None]
+    del _SPY[:]
+    return np.asarray(tab, dtype=float), spied
+
+
+def replay_halton(rec: dict, env: dict | None, via: str = 'catalogue') -> dict:
+    """Compare one emitted behaviour with the real generator.  -> dict(n=points, problems=[(key, detail, facts)])"""
+    name, n, R = rec['name'], rec['n'], rec['R']
+    if via == 'database':
+        tab, sp = _database_table([name], n, R)
         if tab.shape != (n, R, 1):
             return dict(n=0, got=None, problems=[('halton:shape', dict(name=name, n=n, R=R, via=via, shape=list(tab.shape)),
                                                   dict(clause='shape', name=name))])
-        a = tab[:, :, 0]
+        a, spied = tab[:, :, 0], (sp[-1] if sp else None)
     else:
-        a, _ = call(name, n, R, None)
+        a, spied = call(name, n, R, None)
+    res = judge_array(name, n, R, a, [t for row in rec['out'] for t in row], env, via, spied)
+    res['got'] = a.tolist() if res['n'] else None
+    return res
+
+
+# --------------------------------------------------------------------------- every total length (HaltonSweep.tla)
+SWEEP_INVARIANTS = ['TypeOK', 'Accepted', 'SweepIsGen', 'ChecksumOK']
+
+
+def _plain_root(name: str, extends: str, extra: str = '') -> str:
+    return f'---- MODULE {name} ----\nEXTENDS {extends}\nG_Sizes == {{}}\nG_RandSizes == {{}}\n{extra}====\n'
+
+
+def _plain_cfg(spec: str, constants: str, invariants, properties=()) -> str:
+    return (f'SPECIFICATION {spec}\nCONSTANTS\n Sizes <- G_Sizes\n RandSizes <- G_RandSizes\n Den = 2\n MaxG = 1\n{constants}'
+            + ''.join(f'INVARIANT {i}\n' for i in invariants) + ''.join(f'PROPERTY {p}\n' for p in properties))
+
+
+def run_sweep(maxlen: int, all_shapes_upto: int, lastk: int = 3, timeout: int = 1500, workers='auto'):
+    consts = f' MaxLen = {maxlen}\n AllShapesUpTo = {all_shapes_upto}\n LastK = {lastk}\n'
+    return tlc.run('HaltonSweepMC', _plain_cfg('SweepSpec', consts, SWEEP_INVARIANTS + ['SweepEmitInv'], ['PrefixStable']),
+                   extra_modules={'HaltonSweepMC': _plain_root('HaltonSweepMC', 'HaltonSweep')}, workers=workers, timeout=timeout)
+
+
+def run_mutant_sweep(timeout: int = 300):
+    """Model-level control: a generator model that leaves the LAST member of the generated part at 0 whenever
+    skip + length is k * base^j (k < base) -- a fill loop that stops one short at a block boundary -- must be
+    reported by TLC (SweepIsGen) within the first lengths."""
+    extra = ('G_Boundary(i, b) == \\E j \\in 0..12 : \\E k \\in 1..(b - 1) : i = k * IPow(b, j)\n'
+             'G_MutUnderlying(e, nn, RR) ==\n'
+             '    LET G == GLen(e, nn, RR) IN\n'
+             '    {[k \\in 1..G |-> IF k = G /\\ G_Boundary(e.skip + G, e.base) THEN Zero ELSE RadInv(e.skip + k, e.base)]}\n')
+    consts = ' MaxLen = 8\n AllShapesUpTo = 8\n LastK = 2\n Underlying <- G_MutUnderlying\n'
+    return tlc.run('HaltonSweepMC', _plain_cfg('SweepSpec', consts, ['SweepIsGen']),
+                   extra_modules={'HaltonSweepMC': _plain_root('HaltonSweepMC', 'HaltonSweep', extra)}, workers=1, timeout=timeout)
+
+
+def split_sweep(res) -> list:
+    return [o for o in res.emitted if isinstance(o, dict) and 'sweep' in o]
+
+
+def sweep_tables(records: list) -> dict:
+    """{name: dict(terms=[t_1..t_Lmax] (output value of flat position k), kind='q'|'probit', q=[Fraction], f=np.array,
+    lengths=sorted lengths)}.  Member k of every array is the last member printed for length k (PrefixStable);
+    overlapping printed members and the sampled positions must agree (sanity of the emission)."""
+    import numpy as np
+
+    by = {}
+    for r in records:
+        d = by.setdefault(r['sweep'], {})
+        L, K = r['L'], len(r['last'])
+        if L != r['n'] * r['R'] or K < 1:
+            raise MachineryError(f'malformed sweep record {r}')
+        for j, t in enumerate(r['last']):
+            pos = L - K + 1 + j
+            if d.setdefault(pos, t) != t:
+                raise MachineryError(f"sweep records of {r['sweep']} disagree on member {pos}")
+    out = {}
+    for nm, d in by.items():
+        Lmax = max(d)
+        if sorted(d) != list(range(1, Lmax + 1)):
+            raise MachineryError(f'sweep of {nm} does not cover every length up to {Lmax}')
+        terms = [d[k] for k in range(1, Lmax + 1)]
+        vals = [term_value(t) for t in terms]
+        kinds = {k for k, _ in vals}
+        if len(kinds) != 1 or kinds & {'negprobit'}:
+            raise MachineryError(f'mixed kinds in the sweep of {nm}: {kinds}')
+        out[nm] = dict(terms=terms, kind=kinds.pop(), q=[q for _, q in vals], f=np.array([float(q) for _, q in vals]))
+    for r in records:
+        tb = out[r['sweep']]
+        for smp in r['samples']:
+            if tb['terms'][smp['p'] - 1] != smp['v']:
+                raise MachineryError(f"sampled position {smp['p']} of {r['sweep']} length {r['L']} is not member {smp['p']} of the sequence")
+    return out
+
+
+def _fsum(xs) -> Fraction | None:
+    tot = Fraction(0)
+    for x in xs:
+        x = float(x)
+        if not math.isfinite(x):
+            return None
+        tot += Fraction(x)
+    return tot
+
+
+def judge_sweep(rec: dict, tb: dict, a, spied, env: dict | None, via: str, zref=None) -> dict:
+    """One answered request of the sweep against the array the real code returned.
+    Always compared exactly: the printed LAST members (the last element of the array among them), the sampled
+    positions and the checksum; and, vectorised, every member (PrefixStable)."""
+    import numpy as np
+
+    name, n, R, L = rec['sweep'], rec['n'], rec['R'], rec['L']
+    base = dict(name=name, n=n, R=R, length=L, via=via)
+    hal = dict(clause='halton', name=name)
+    a = np.asarray(a, dtype=float)
     if a.shape != (n, R):
-        return dict(n=0, got=None, problems=[('halton:shape', dict(name=name, n=n, R=R, via=via, shape=list(a.shape)),
-                                              dict(clause='shape', name=name))])
-    worst = 0.0
-    for i in range(n):
-        for j in range(R):
-            kind, q = term_value(rec['out'][i][j])
-            got = float(a[i, j])
-            if kind == 'q':
-                err = abs(Fraction(got) - q) if math.isfinite(got) else float('inf')
-                worst = max(worst, float(err))
-                if not err <= HALTON_TOL:
-                    problems.append(('halton:value', dict(name=name, n=n, R=R, via=via, row=i, col=j, expected=str(q),
-                                                          expected_float=float(q), got=got),
-                                     dict(clause='halton', name=name)))
+        return dict(n=0, problems=[('halton:shape', dict(base, shape=list(a.shape)), dict(clause='shape', name=name))])
+    flat = a.reshape(-1)
+    problems = []
+    K = len(rec['last'])
+    explicit = [(L - K + j, t) for j, t in enumerate(rec['last'])] + [(s['p'] - 1, s['v']) for s in rec['samples']]
+    if explicit[K - 1][0] != L - 1:
+        raise MachineryError('the last element is not among the printed members')
+    if tb['kind'] == 'q':
+        for pos, t in explicit:
+            _, q = term_value(t)
+            got = float(flat[pos])
+            err = abs(Fraction(got) - q) if math.isfinite(got) else float('inf')
+            if not err <= HALTON_TOL:
+                problems.append(('halton:value', dict(base, what='last element' if pos == L - 1 else 'printed member', position=pos + 1,
+                                                      row=pos // R, col=pos % R, expected=str(q), expected_float=float(q), got=got), hal))
+        bad = np.nonzero(~(np.abs(flat - tb['f'][:L]) <= HALTON_TOL))[0]
+        for pos in bad[:3]:
+            problems.append(('halton:value', dict(base, what='member', position=int(pos) + 1, row=int(pos) // R, col=int(pos) % R,
+                                                  expected=str(tb['q'][pos]), got=float(flat[pos]), members_off=int(bad.size)), hal))
+        _, want = term_value(rec['osum'])
+        tot = _fsum(flat)
+        if tot is None or not abs(tot - want) <= HALTON_TOL * L:
+            problems.append(('halton:checksum', dict(base, what='exact sum of the array', expected=str(want), expected_float=float(want),
+                                                     got=None if tot is None else float(tot)), dict(clause='checksum', name=name)))
+    else:
+        uexp = tb['f'][:L]
+        _, want = term_value(rec['usum'])
+        if spied is not None:
+            sp = np.asarray(spied, dtype=float).reshape(-1)
+            if sp.size != L:
+                problems.append(('halton:value', dict(base, what='underlying uniform numbers', expected_count=L, got_count=int(sp.size)), hal))
             else:
-                u = float(q)
-                if kind == 'negprobit':
-                    got = -got
-                if not quantile_ok(u, got):
-                    facts, detail = quantile_facts(u, got, env, f'{name}({n},{R})[{i}][{j}] via {via}')
-                    if facts['within_envelope']:
-                        problems.append(('quantile', detail, facts))
-                    else:
-                        problems.append(('halton:value', dict(name=name, n=n, R=R, via=via, row=i, col=j,
-                                                              expected=f'probit({q})', expected_uniform=u, got=got,
-                                                              Phi_of_got=0.5 * math.erfc(-got / SQRT2) if math.isfinite(got) else None),
-                                         dict(clause='halton', name=name)))
-    return dict(n=n * R, worst=worst, got=a.tolist(), problems=problems)
+                bad = np.nonzero(~(np.abs(sp - uexp) <= HALTON_TOL))[0]
+                for pos in ([L - 1] if (L - 1) in bad else []) + [int(x) for x in bad[:3] if x != L - 1]:
+                    problems.append(('halton:value', dict(base, what='underlying uniform number handed to the quantile transform'
+                                                          + (' (last element)' if pos == L - 1 else ''), position=pos + 1,
+                                                          expected=str(tb['q'][pos]), got=float(sp[pos]), members_off=int(bad.size)), hal))
+                tot = _fsum(sp)
+                if tot is None or not abs(tot - want) <= HALTON_TOL * L:
+                    problems.append(('halton:checksum', dict(base, what='exact sum of the underlying uniform numbers', expected=str(want),
+                                                             got=None if tot is None else float(tot)), dict(clause='checksum', name=name)))
+        if zref is None:
+            zref = wichura(uexp)
+        zr = np.asarray(zref, dtype=float)[:L]
+        # members that are not what the quantile primitive returns for the expected uniform number are judged on their own
+        # (never excused by the finding about the primitive); the others inherit the verdict of the primitive at that point
+        off = set(int(x) for x in np.nonzero(~(np.abs(flat - zr) <= Z_TOL * np.maximum(1.0, np.abs(zr))))[0])
+        for pos in ([L - 1] if (L - 1) in off else []) + [x for x in sorted(off) if x != L - 1][:3]:
+            _, q = term_value(tb['terms'][pos])
+            u, got = float(q), float(flat[pos])
+            if not quantile_ok(u, got):
+                problems.append(('halton:value', dict(base, what='last element' if pos == L - 1 else 'member', position=pos + 1,
+                                                      row=pos // R, col=pos % R, expected=f'probit({q})', expected_uniform=u, got=got,
+                                                      quantile_primitive_of_expected_uniform=float(zr[pos]), members_off=len(off)), hal))
+    return dict(n=L, problems=problems)
+
+
+def sweep_points(tb: dict, name: str, env: dict | None):
+    """The normal entries: accuracy of the primitive at every expected uniform number of the sequence, judged once per
+    member (the members are the same for every length).  -> (zref, [(key, detail, facts)])"""
+    zref = wichura(tb['f'])
+    problems = []
+    for k, q in enumerate(tb['q']):
+        u, z = float(q), float(zref[k])
+        if not quantile_ok(u, z):
+            facts, detail = quantile_facts(u, z, env, f'{name} member {k + 1}: get_normal_wichura_draws(uniform_numbers={q})')
+            problems.append(('quantile', detail, facts))
+    return zref, problems
+
+
+def replay_sweep_chunk(item) -> dict:
+    """(name, records, table, env, zref) -> dict(points=, calls=, problems=[...])   [runs in a pmap child]"""
+    name, recs, tb, env, zref = item
+    pts = 0
+    problems = []
+    for rec in recs:
+        try:
+            a, spied = call(name, rec['n'], rec['R'], None)
+        except Exception as e:  # noqa
+            problems.append(('halton:exc', dict(name=name, n=rec['n'], R=rec['R'], via='catalogue', error=f'{type(e).__name__}: {e}'[:300]),
+                             dict(clause='exception', name=name)))
+            continue
+        r = judge_sweep(rec, tb, a, spied, env, 'catalogue', zref)
+        pts += r['n']
+        problems += r['problems'][:6]
+    return dict(points=pts, calls=len(recs), problems=problems)
+
+
+def replay_sweep_database(item) -> dict:
+    """(order of the entries, {name: record} of ONE shape, tables, env, zrefs): one Database.generate_draws call producing
+    all the listed entries at once (the table is (n, R, number of entries))."""
+    order, recs, tables, env, zrefs = item
+    any_rec = recs[order[0]]
+    n, R = any_rec['n'], any_rec['R']
+    try:
+        tab, spied = _database_table(order, n, R)
+    except Exception as e:  # noqa
+        return dict(points=0, problems=[('halton:exc', dict(names=order, n=n, R=R, via='database', error=f'{type(e).__name__}: {e}'[:300]),
+                                         dict(clause='exception', name=order[0]))])
+    if tab.shape != (n, R, len(order)):
+        return dict(points=0, problems=[('halton:shape', dict(names=order, n=n, R=R, via='database', shape=list(tab.shape)),
+                                         dict(clause='shape', name=order[0]))])
+    normals = [nm for nm in order if tables[nm]['kind'] != 'q']
+    sp = dict(zip(normals, spied)) if len(spied) == len(normals) else {}
+    pts = 0
+    problems = []
+    for j, nm in enumerate(order):
+        r = judge_sweep(recs[nm], tables[nm], tab[:, :, j], sp.get(nm), env, f'database (entries asked in the order {order})', zrefs.get(nm))
+        pts += r['n']
+        problems += r['problems'][:6]
+    return dict(points=pts, problems=problems)
+
+
+# --------------------------------------------------------------------------- call histories (DrawCalls.tla)
+def run_calls(names, sizes, maxcalls: int, maxscribbles: int, timeout: int = 900, workers=4):
+    ns = '{' + ', '.join(f'"{x}"' for x in sorted(names)) + '}'
+    ss = '{' + ', '.join(f'<<{a}, {b}>>' for a, b in sorted(set(sizes))) + '}'
+    extra = f'G_CallNames == {ns}\nG_CallSizes == {ss}\n'
+    consts = f' CallNames <- G_CallNames\n CallSizes <- G_CallSizes\n MaxCalls = {maxcalls}\n MaxScribbles = {maxscribbles}\n'
+    return tlc.run('DrawCallsMC', _plain_cfg('CallSpec', consts, ['TypeOK', 'Accepted', 'HistoryFree', 'Retained', 'CallsEmitInv'], ['KeepsEarlier']),
+                   extra_modules={'DrawCallsMC': _plain_root('DrawCallsMC', 'DrawCalls', extra)}, workers=workers, timeout=timeout)
+
+
+def split_calls(res) -> list:
+    return [o for o in res.emitted if isinstance(o, dict) and 'calls' in o]
+
+
+def replay_history(item) -> dict:
+    """(history, env): replay one history of DrawCalls in THIS process (the caller forks one process per history).
+    After every event: the array just returned is judged against the spec's value (HistoryFree); every array the
+    caller still owns must be unchanged in shape and content (Retained)."""
+    import numpy as np
+
+    hist, env = item
+    held = {}      # k -> (object returned, private copy, event)
+    problems = []
+    pts = 0
+    for pos, ev in enumerate(hist['calls']):
+        nm, n, R, k = ev['name'], ev['n'], ev['R'], ev['k']
+        where = f"event {pos + 1} of {[(e['op'], e['name']) for e in hist['calls']]}"
+        if ev['op'] == 'call':
+            del _SPY[:]
+            try:
+                obj = generator(nm)(n, R)
+            except Exception as e:  # noqa
+                problems.append(('history:exc', dict(name=nm, n=n, R=R, where=where, error=f'{type(e).__name__}: {e}'[:300]),
+                                 dict(clause='exception', name=nm)))
+                break
+            spied = [x for x in _SPY if x is not None]
+            del _SPY[:]
+            r = judge_array(nm, n, R, obj, [t for row in ev['out'] for t in row], env, 'catalogue', spied[-1] if spied else None, where)
+            pts += r['n']
+            for key, detail, facts in r['problems']:
+                key = key if key == 'quantile' else key.replace('halton:', 'history:')
+                problems.append((key, detail, facts if key == 'quantile' else dict(facts, clause='history')))
+            held[k] = (obj, np.array(obj, dtype=float, copy=True), ev)
+        else:
+            obj = held.pop(k)[0]
+            if isinstance(obj, np.ndarray):   # the caller owns the array: overwrite it and flatten it in place
+                try:
+                    obj.fill(np.nan)
+                    obj.shape = (obj.size,)
+                except (AttributeError, ValueError):
+                    pass
+        for k2, (obj, copy, ev2) in held.items():
+            cur = np.asarray(obj, dtype=float)
+            if cur.shape != copy.shape or not np.array_equal(cur, copy, equal_nan=True):
+                problems.append(('history:retained', dict(name=ev2['name'], n=ev2['n'], R=ev2['R'], call=k2, where=where,
+                                                          shape_at_return=list(copy.shape), shape_now=list(cur.shape),
+                                                          at_return=copy.reshape(-1)[:8].tolist(), now=cur.reshape(-1)[:8].tolist()),
+                                 dict(clause='history', name=ev2['name'])))
+        if any(k_ != 'quantile' for k_, _, _ in problems):
+            break
+    return dict(points=pts, problems=problems)
 
 
 # ---- code -> spec
